@@ -155,3 +155,173 @@ func ratCoefString(a ratForm, n string) string {
 }
 
 var _ = fmt.Sprintf
+
+// ---- polynomial forms ----
+
+// polyForm: a polynomial with rational coefficients over atoms (values that are not sums, differences,
+// products or quotients by a constant of other values): monomial (sorted atom names joined by "·", "" for
+// the constant term) -> coefficient.
+type polyForm map[string]*big.Rat
+
+func polyConst(k *big.Rat) polyForm {
+	if k.Sign() == 0 {
+		return polyForm{}
+	}
+	return polyForm{"": new(big.Rat).Set(k)}
+}
+
+func (a polyForm) add(b polyForm, sign int64) polyForm {
+	out := polyForm{}
+	for m, c := range a {
+		out[m] = new(big.Rat).Set(c)
+	}
+	s := big.NewRat(sign, 1)
+	for m, c := range b {
+		v := new(big.Rat).Mul(c, s)
+		if o, ok := out[m]; ok {
+			o.Add(o, v)
+			if o.Sign() == 0 {
+				delete(out, m)
+			}
+		} else if v.Sign() != 0 {
+			out[m] = v
+		}
+	}
+	return out
+}
+
+func mulMono(a, b string) string {
+	var parts []string
+	for _, m := range []string{a, b} {
+		if m != "" {
+			parts = append(parts, strings.Split(m, "·")...)
+		}
+	}
+	sort.Strings(parts)
+	return strings.Join(parts, "·")
+}
+
+func (a polyForm) mul(b polyForm) polyForm {
+	out := polyForm{}
+	for m1, c1 := range a {
+		for m2, c2 := range b {
+			m := mulMono(m1, m2)
+			v := new(big.Rat).Mul(c1, c2)
+			if o, ok := out[m]; ok {
+				o.Add(o, v)
+				if o.Sign() == 0 {
+					delete(out, m)
+				}
+			} else {
+				out[m] = v
+			}
+		}
+	}
+	return out
+}
+
+func (a polyForm) String() string {
+	var ms []string
+	for m := range a {
+		ms = append(ms, m)
+	}
+	sort.Strings(ms)
+	var parts []string
+	for _, m := range ms {
+		if m == "" {
+			parts = append(parts, a[m].RatString())
+		} else {
+			parts = append(parts, a[m].RatString()+"·"+m)
+		}
+	}
+	if len(parts) == 0 {
+		return "0"
+	}
+	return strings.Join(parts, " + ")
+}
+
+// polyEnv names atoms: elements of literal package tables by table and index form, quotients by their
+// numerator and denominator (recorded in quot for the rule to look at), anything else by its SSA name.
+type polyEnv struct {
+	fn     *ssa.Function
+	quot   map[string][2]polyForm
+	quotID map[string]string
+	memo   map[ssa.Value]polyForm
+}
+
+func (e *polyEnv) of(v ssa.Value, depth int) polyForm {
+	if p, ok := e.memo[v]; ok {
+		return p
+	}
+	p := e.of1(v, depth)
+	e.memo[v] = p
+	return p
+}
+
+func (e *polyEnv) atom(name string) polyForm { return polyForm{name: big.NewRat(1, 1)} }
+
+func (e *polyEnv) of1(v ssa.Value, depth int) polyForm {
+	name := func() string { return "[" + v.Name() + "]" }
+	if depth > 40 {
+		return e.atom(name())
+	}
+	switch x := v.(type) {
+	case *ssa.Const:
+		if x.Value != nil && (x.Value.Kind() == constant.Int || x.Value.Kind() == constant.Float) {
+			if q, ok := new(big.Rat).SetString(x.Value.ExactString()); ok {
+				return polyConst(q)
+			}
+		}
+	case *ssa.Parameter:
+		return e.atom(x.Name())
+	case *ssa.Convert:
+		if isIntType(x.X.Type()) || (isFloatType(x.X.Type()) && isFloatType(x.Type())) {
+			return e.of(x.X, depth+1)
+		}
+	case *ssa.UnOp:
+		if x.Op == token.SUB {
+			return polyForm{}.add(e.of(x.X, depth+1), -1)
+		}
+		if x.Op == token.MUL {
+			if ia, ok := x.X.(*ssa.IndexAddr); ok {
+				if ld, ok := ia.X.(*ssa.UnOp); ok && ld.Op == token.MUL {
+					if g, ok := ld.X.(*ssa.Global); ok {
+						idx := ratAffineOf(&evalFrame{fn: e.fn}, ia.Index, 0)
+						return e.atom(gname(g) + "[" + idx.String() + "]")
+					}
+				}
+			}
+		}
+	case *ssa.BinOp:
+		switch x.Op {
+		case token.ADD:
+			return e.of(x.X, depth+1).add(e.of(x.Y, depth+1), 1)
+		case token.SUB:
+			return e.of(x.X, depth+1).add(e.of(x.Y, depth+1), -1)
+		case token.MUL:
+			return e.of(x.X, depth+1).mul(e.of(x.Y, depth+1))
+		case token.QUO:
+			if !isFloatType(x.Type()) {
+				break
+			}
+			num, den := e.of(x.X, depth+1), e.of(x.Y, depth+1)
+			if len(den) == 1 {
+				if k, ok := den[""]; ok && k.Sign() != 0 {
+					return num.mul(polyConst(new(big.Rat).Inv(k)))
+				}
+			}
+			desc := "(" + num.String() + ")/(" + den.String() + ")"
+			if e.quotID == nil {
+				e.quotID = map[string]string{}
+			}
+			n, seen := e.quotID[desc]
+			if !seen {
+				n = fmt.Sprintf("q%d", len(e.quotID)+1) // an opaque name: monomials are joined strings
+				e.quotID[desc] = n
+			}
+			e.quot[n] = [2]polyForm{num, den}
+			return e.atom(n)
+		}
+	}
+	return e.atom(name())
+}
